@@ -87,6 +87,10 @@ func GenLeaf(rng *hx.Rng) *Node {
 		n.Charset = rng.Pick([]string{"utf-8", "us-ascii", "", "iso-8859-1", "UTF-8"})
 		n.CTE = rng.Pick([]string{"7bit", "8bit", "", "quoted-printable", "base64", "binary"})
 		n.Content = genText(rng, size, rng.Chance(75))
+		if (n.CTE == "8bit" || n.CTE == "binary") && size > 0 && rng.Chance(35) {
+			// a line feed that is content, not a line ending, in a message whose lines end in CRLF
+			n.Content = append([]byte("stray\nline feed inside a line\r\n"), n.Content...)
+		}
 		if rng.Chance(15) {
 			n.Filename = rng.Pick([]string{"notes.txt", "read me.txt", "a(b).txt"})
 			n.Disposition = rng.Pick([]string{"attachment", "inline"})
@@ -213,7 +217,14 @@ func TopHeaders(rng *hx.Rng, token string) []string {
 	if rng.Chance(30) {
 		h = append(h, "X-Long: "+strings.Repeat("word ", 30)+"\r\n "+strings.Repeat("more ", 20))
 	}
+	if rng.Chance(40) {
+		// the same field with the same value more than once, adjacent and apart
+		h = append(h, "X-Label: urgent", "Comments: same words", "Comments: same words")
+	}
 	h = append(h, "Date: Mon, 02 Jan 2006 15:04:05 +0000", "Message-ID: <"+token+"@example.org>")
+	if len(h) > 6 && rng.Chance(60) {
+		h = append(h, "X-Label: urgent")
+	}
 	if rng.Chance(40) {
 		h = append(h, "Cc: \"Doe, John\" <jd@example.org>, other@example.org")
 	}
